@@ -70,7 +70,10 @@ def _input_raster(d):
     if d["t"] == "prox":
         return raster(d["rid"], dt, bk, shape=tuple(d.get("shape", (6, 7))), sparse=True, cs=d.get("cs"))
     if d["t"] == "terrain":
-        return raster(d["rid"], dt, bk, cs=d.get("cs"))
+        r_ = raster(d["rid"], dt, bk, cs=d.get("cs"))
+        if d.get("nores"):
+            r_.attrs.pop("res", None)    # cell size from the coordinates alone
+        return r_
     if d["t"] == "viewshed":
         return raster(d["rid"], "float64", "numpy", nan=False, cs=d.get("cs"))
     raise KeyError(d["t"])
@@ -497,7 +500,8 @@ def body_reuse(case, ctx):
         else:
             ras["y"] = tmpl["y"].values      # same object, new coordinates
             ras["x"] = tmpl["x"].values
-            ras.attrs["res"] = tmpl.attrs["res"]
+            if "res" in tmpl.attrs:
+                ras.attrs["res"] = tmpl.attrs["res"]   # a raster that states its cell size states the new one; one that does not is left as the call left it
         try:
             got = canon(build_call(d, given=ras))
         except Exception as e:  # noqa
@@ -528,9 +532,11 @@ def reuse_cases():
                 variants = [dict(base, md=md, metric=m) for md in (None, 3.0) for m in ("EUCLIDEAN", "MANHATTAN")]
             if t == "viewshed":
                 variants = [dict(base, x=1.5, y=2.0, obs=2.0)]
+            if t == "terrain":
+                variants = [dict(base, nores=False), dict(base, nores=True)]
             for b in variants:
                 yield {"sub": "reuse", "d": _normalise(b), "scales": [None, [2.0, 3.0], [1.0, 0.5], None],
-                       "enum": ["reuse", t, fn, b.get("md"), b.get("metric")]}
+                       "enum": ["reuse", t, fn, b.get("md"), b.get("metric"), bool(b.get("nores"))]}
 
 
 BODIES = {"seq": body_seq, "threads": body_threads, "joint": body_joint, "reuse": body_reuse}
@@ -558,7 +564,7 @@ FIELDS = {
     "classify": {"fn": ["quantile", "natural_breaks", "equal_interval", "binary", "reclassify"], "dtype": DTS, "backend": BKS,
                  "values": [[1, 2], [0.5], [3, -1, 2]], "bins": [[0, 2, 4], [1, 9], [-1, 0, 1, 2, 3]], "k": [2, 3, 5],
                  "num_sample": [None, 30, 12, 20]},
-    "terrain": {"fn": ["slope", "aspect", "curvature", "hillshade"], "dtype": DTS, "backend": BKS, "cs": CSS},
+    "terrain": {"fn": ["slope", "aspect", "curvature", "hillshade"], "dtype": DTS, "backend": BKS, "cs": CSS, "nores": [False, True]},
     "astar": {"barriers": [None, [0], [0, 1]], "conn": [4, 8], "snap": [False, True], "dtype": DTS},
     "perlin": {"seed": [0, 1, 2, 3], "freq": [[1, 1], [2, 3]], "shape": [[5, 6], [8, 4]], "dtype": ["float64", "float32"], "backend": BKS},
     "gen_terrain": {"seed": [0, 1, 2], "zfactor": [4000, 10], "shape": [[5, 6], [8, 4]], "dtype": ["float64"], "backend": BKS,
@@ -591,6 +597,8 @@ def _normalise(d):
             d.setdefault(f, None)
     if d["t"] in ("prox", "terrain", "viewshed"):
         d.setdefault("cs", None)
+    if d["t"] == "terrain":
+        d["nores"] = bool(d.get("nores"))
     if d["t"] == "prox" and d.get("backend") == "dask" and d.get("md") is not None:
         # stated domain of the dask path (property C07): the halo, in cells, must not exceed the raster's own height/width, unless max_distance
         # reaches the raster's extent (single-block path).  raster(): y step 1.0, x step 0.5
